@@ -9,6 +9,7 @@ import (
 	"log/slog"
 	"net/url"
 	"strings"
+	"sync"
 	"time"
 	"unsafe"
 
@@ -370,7 +371,16 @@ func runC04(c *Ctx) {
 		}
 		switch br.kind {
 		case 0:
-			br.ws = zapcore.Lock(mk(fmt.Sprintf("b%d", b)))
+			sk := mk(fmt.Sprintf("b%d", b))
+			if g.Chance(4) {
+				// a device type that carries a mutex of its own for some other job
+				// (its Lock/Unlock methods are promoted): it does not serialise the
+				// device's Write and Sync, Lock(sink) has to
+				br.ws = zapcore.Lock(&c04lockerSink{SimSink: sk})
+				c.R.Probe("device type with Lock/Unlock methods of its own under zapcore.Lock")
+			} else {
+				br.ws = zapcore.Lock(sk)
+			}
 		case 1, 2:
 			n := br.kind
 			var urls []string
@@ -842,4 +852,11 @@ func clipS(s string) string {
 		return s[:160] + "…"
 	}
 	return s
+}
+
+// c04lockerSink: a device whose type embeds a mutex that guards something
+// else (a segment list, rotation state); Write and Sync do not take it.
+type c04lockerSink struct {
+	*zsim.SimSink
+	sync.Mutex
 }
